@@ -505,6 +505,8 @@ def m_slice_index(eng, st, fr, t, name, rname, args):
         lo = f[0].v
     elif kind == "Range" and isinstance(f[0], K) and isinstance(f[1], K):
         lo, hi = f[0].v, f[1].v
+    elif kind == "RangeFull":
+        pass
     else:
         return NotImplemented
     if lo > hi or hi > len(b):
